@@ -393,5 +393,9 @@ func safeName(s string) string {
 
 // placeholder for order / relational obligation generators
 func (e *Engine) specialObligations(name, prop string) ([]*Obligation, []string, []string) {
+	switch name {
+	case "encap":
+		return e.encapObligations(prop), nil, nil
+	}
 	return nil, []string{"unknown special generator " + name}, nil
 }
